@@ -32,7 +32,7 @@ func init() {
 			"(3) PriQueue: the signal channel has constant capacity >= 1, sends on it are non-blocking (select with default), every successful Push path sends after the item is in the heap, and Pop sends whenever the length it computed under the lock after removal is > 0. " +
 			"NOT decided: liveness under every schedule (these are the necessary signalling conditions, not a proof of wake-up).",
 		Assumptions: []string{"sync.Cond semantics: Signal wakes at most one waiter, Broadcast all"},
-		Floors:      map[string]int{"C13.wait-loop": 8, "C13.wake-on-add": 10, "C13.wake-on-close": 5, "C13.cond-binding": 5, "C13.priq-signal": 3},
+		Floors:      map[string]int{"C13.wait-loop": 8, "C13.wake-on-add": 10, "C13.wake-on-close": 5, "C13.cond-binding": 5, "C13.priq-signal": 3, "C13.lock-released": 40},
 		Run:         func(c *Ctx) { runQueues(c, "C13") },
 	})
 }
@@ -299,6 +299,9 @@ func (q *qCtx) run() {
 			continue
 		}
 		role, li := q.roleOf(fn.Name())
+		if q.prop == "C13" {
+			c.holds("C13.lock-released", name, fn.Pos(), "checked on every returning path") // overwritten by a violation of the same construct
+		}
 		for _, t := range traces {
 			if q.prop == "C12" {
 				switch role {
@@ -316,6 +319,15 @@ func (q *qCtx) run() {
 				q.checkWake(t, name)
 				q.checkWaitLoop(t, name)
 				q.checkSpurious(t, name)
+				// a consumer or producer that returns with the queue mutex held stops every other party: the woken
+				// consumers can never re-acquire it inside Cond.Wait
+				if t.End == EndReturn {
+					for _, h := range t.heldLocks(len(t.Events)) {
+						if _, is := lockIsField(h, q.lock); is {
+							c.violated("C13.lock-released", name, fn.Pos(), "a path returns while still holding the queue mutex: every consumer woken afterwards stays stuck re-acquiring it inside Cond.Wait, and every later call on the queue blocks", c.witness(t, len(t.Events)-1)...)
+						}
+					}
+				}
 			}
 		}
 	}
